@@ -14,6 +14,10 @@
      EPeerData    processData (takeInflows, padding refund, discard refund, WINDOW_UPDATEs)
      EAppRead     transportResponseBody.Read (inflow.add on connection and stream, WINDOW_UPDATEs)
      EAppClose    transportResponseBody.Close (unread bytes returned to the connection window)
+     EOpenRefused writeRequest whose header block is refused locally (encodeHeaders error: header list
+                  larger than the peer's MAX_HEADER_LIST_SIZE, invalid header) or that is cancelled
+                  between addStreamLocked and the write: the id is taken, nothing is written, the
+                  stream is forgotten again - the id is never handed out a second time
      EPeerHeaders processHeaders: response HEADERS (or trailers); END_STREAM ends the peer's half
                   (a response without body, e.g. a final response in the middle of an upload)
 
@@ -93,7 +97,8 @@ Inductive cev :=
 | EPeerData (sid len pad : Z) (es : bool)
 | EAppRead (sid n : Z) (eof : bool)
 | EAppClose (sid : Z)
-| EPeerHeaders (sid : Z) (es : bool).
+| EPeerHeaders (sid : Z) (es : bool)
+| EOpenRefused.
 
 Fixpoint find_cs (sid : Z) (l : list cstream) : option cstream :=
   match l with
@@ -339,6 +344,11 @@ Definition conn_step (c : conn) (e : cev) : conn * list ev :=
                 [P (FHeaders sid 0 true es)])
       | None => (c, [])
       end
+  | EOpenRefused =>
+      if negb (cc_dead c) && (active_count (cc_streams c) <? cc_max_streams c) && (cc_next_id c <? 2147483647) then
+        (mkConn (cc_flow c) (cc_max_frame c) (cc_max_streams c) (cc_init_win c) (cc_next_id c + 2) (cc_streams c)
+                (cc_seen_settings c) (cc_dead c) (cc_in c) (cc_prio_len c) (cc_stream_in c), [])
+      else (c, [])
   end.
 
 Fixpoint conn_run (c : conn) (evs : list cev) : conn * list ev :=
